@@ -201,7 +201,7 @@ Qed.
 (* ---- created at a relay: a mutually inverse pair under the exit socket's keys ---- *)
 Lemma created_makes_inverse_pair_l (c : cnode) src cid ident rq es :
   assoc ident (cn_create c) = Some rq -> assoc (cr_from rq) (n_exits (cn_tab c)) = Some es ->
-  cr_to rq <> cr_from rq ->
+  has (cr_from rq) (n_relays (cn_tab c)) = false -> cr_to rq <> cr_from rq ->
   let c' := fst (on_created c src cid ident) in
   exists fw bw,
     assoc (cr_from rq) (n_relays (cn_tab c')) = Some fw /\ assoc (cr_to rq) (n_relays (cn_tab c')) = Some bw /\
@@ -211,7 +211,7 @@ Lemma created_makes_inverse_pair_l (c : cnode) src cid ident rq es :
     n_exits (cn_tab c') = n_exits (cn_tab c) /\ n_circuits (cn_tab c') = n_circuits (cn_tab c) /\
     In (PExit (cr_from rq)) (cn_pending c').
 Proof.
-  intros Ha He Hne c'. unfold c', on_created. rewrite Ha, He. cbn.
+  intros Ha He Hnr Hne c'. unfold c', on_created. rewrite Ha, He, Hnr. cbn.
   eexists; eexists. rewrite assoc_upd_same. rewrite assoc_upd_other by exact Hne. rewrite assoc_upd_same.
   repeat split; try reflexivity. apply in_or_app. right. left. reflexivity.
 Qed.
